@@ -44,6 +44,12 @@ func registerDynamicTypes() {
 				f("s", 1, str, "", opt),
 				f("leaves", 2, msg, ".test.zzbad.v1.Leaf", rep),
 				f("bad", 3, msg, ".test.zzbad.v1.HasFixed", opt)}},
+			// a second type that fails only in the nested build of the same HasFixed
+			{Name: proto.String("Outer2"), Field: []*descriptorpb.FieldDescriptorProto{
+				f("t", 1, str, "", opt),
+				f("mid", 2, msg, ".test.zzbad.v1.Mid", opt),
+				f("bad", 3, msg, ".test.zzbad.v1.HasFixed", opt),
+				f("leaf", 4, msg, ".test.zzbad.v1.Leaf", opt)}},
 			// fine, shares Leaf and Mid with the failing ones
 			{Name: proto.String("Good"), Field: []*descriptorpb.FieldDescriptorProto{
 				f("mid", 1, msg, ".test.zzbad.v1.Mid", opt), f("leaf", 2, msg, ".test.zzbad.v1.Leaf", opt),
